@@ -1615,10 +1615,7 @@ Proof.
       stab_core ltac:(first [apply gparse_expr_stable; intros; apply K6 | apply K4 | apply K5]).
     + rewrite (parse_braced_S f), (parse_braced_S (S f)). stab_core ltac:(first [apply K1]).
     + rewrite (parse_else_S f), (parse_else_S (S f)). stab_core ltac:(first [apply K4 | apply K3]).
-    + rewrite (asm_hook_S f), (asm_hook_S (S f)). stab_core fail.
-      match goal with |- stable (match parse_lines f ?b ?n ?i ?a with _ => _ end) _ =>
-        destruct (K1 b n i a) as [E|E]; [rewrite E; apply stable_fuel | rewrite E] end.
-      stab_core fail.
+    + rewrite (asm_hook_S f), (asm_hook_S (S f)). stab_core ltac:(first [apply K1]).
 Qed.
 
 Lemma parse_lines_stable_le : forall f f', (f <= f')%nat -> forall bd nested w acc,
@@ -1647,3 +1644,22 @@ Proof. intros t f Hle Hne. unfold parse_file. apply parse_lines_stable_le; assum
 Example C03_parse_total_nonvacuous :
   parse_lines 40 0 false (start_walker sample_text) [] <> PFuel /\ parse_lines 10 0 false (start_walker sample_text) [] = PFuel.
 Proof. split; vm_compute; [discriminate | reflexivity]. Qed.
+
+(* ================================================================================================ *)
+(* J. bridge to Parser.v: on exact walkers the primitives of this model read the same token as Parser.token_here *)
+Lemma exact_visible w : lim w = cur w + bytes_len (tail w) -> visible w = tail w.
+Proof.
+  intros E. unfold visible. replace (lim w - cur w) with (bytes_len (tail w)) by lia.
+  rewrite <- (app_nil_r (tail w)) at 2. rewrite take_blen_app. reflexivity.
+Qed.
+
+Lemma xtoken_is_token_here w : lim w = cur w + bytes_len (tail w) -> xtoken w = token_here w.
+Proof.
+  intros E. unfold xtoken, token_here. rewrite (exact_visible w E).
+  destruct (tail w) as [|c r] eqn:T.
+  - cbn [bytes_len] in E. destruct (lim w <=? cur w) eqn:L; [reflexivity | lia].
+  - cbn [bytes_len] in E. pose proof (ulen_pos c). destruct (lim w <=? cur w) eqn:L; [lia | reflexivity].
+Qed.
+
+Lemma wf_exact t w : wf t w -> lim w = cur w + bytes_len (tail w).
+Proof. intros (_ & _ & _ & _ & E). exact E. Qed.
